@@ -372,7 +372,7 @@ func (m *UnexportedMethodMocker) String() string {
 
 // objName 获取对象名
 func (m *UnexportedMethodMocker) objName() string {
-	return fmt.Sprintf("%s.%s.%s", m.pkgName, m.structName, m.methodName)
+	return fmt.Sprintf("%s.%s.%s", symbolPkgPath(m.pkgName), m.structName, m.methodName)
 }
 
 // Method 设置结构体的方法名
@@ -453,7 +453,7 @@ func (m *UnexportedFuncMocker) String() string {
 
 // objName 获取对象名
 func (m *UnexportedFuncMocker) objName() string {
-	return fmt.Sprintf("%s.%s", m.pkgName, m.funcName)
+	return fmt.Sprintf("%s.%s", symbolPkgPath(m.pkgName), m.funcName)
 }
 
 // Apply 指定 mock 执行的回调函数
